@@ -6,6 +6,15 @@ ALL = ["C%02d" % i for i in range(1, 21)]
 
 # id -> (category, technique, text, note, design_ref)
 CHECKS = {
+ "C02": ("model_checking", "deviation-bounded stateless depth-first exploration of the real Consumer+KafkaClient on a virtual cluster, with an incremental delivery monitor over the ground-truth log",
+         "Seven log shapes (plain, compaction gaps, base offset 1000, gzip/snappy wrappers at zero and non-zero base, compacted wrapper, message larger than the buffer) x both message formats x start positions (earliest, numeric incl. mid-wrapper, latest with later appends, committed with/without stored offset) x sync/async processor, fetch buffer of 130 bytes, explored under every schedule with <=1-2 (quick) / <=2-3 (thorough) deviations: error codes on fetch/offset requests, silent broker, drop, refused connection, timers and processor completions overtaking I/O. The monitor requires every invocation to carry exactly the next log entries, never concurrently, one fetch outstanding, and the whole log delivered at quiescence.",
+         "SimCluster fetch semantics (cut at max_bytes, whole wrappers); small scope; bounds in the evidence notes", "5/C02"),
+ "C03": ("model_checking", "deviation-bounded stateless depth-first exploration with process death as an event at every state, followed by restart from the committed position",
+         "Real Consumer with a consumer group: auto-commit by count/time/off, manual commit, shutdown, stop; processor completions that succeed or fail; OffsetCommit error codes, silent broker, drop; and `crash` (all client objects abandoned, fresh KafkaClient+Consumer from OFFSET_COMMITTED) injectable at every state. Checked at the consumer->client seam and at the coordinator: commit value = last processed, nothing delivered-but-unprocessed is ever covered by a commit or by the stored offset (= every crash point), one commit outstanding, last_committed only acknowledged values, resume exactly after the committed message for every committed position of small plain/compressed logs in both formats.",
+         "SimCluster offset store; permissive application model; small scope", "5/C03"),
+ "C13": ("model_checking", "deviation-bounded stateless depth-first exploration with stop()/shutdown()/commit() injectable at every state",
+         "46 configurations (group/no group, auto-commit by count/time/off, sync/async processor, scripts stop / stop+restart / shutdown / commit+shutdown / shutdown+stop / shutdown+restart / stop from inside the processor); the application call may be issued early at every state of runs with <=1 (quick) / <=2 (thorough) faults (commit error codes, fetch error, silent broker, drop). Oracle: nothing of the consumer remains after stop() (no processor call, no request handed to the client or on the wire, no timer), the start Deferred fires once with the last processed offset unless an unrecoverable error occurred, shutdown waits/commits/fires once and never hangs, a restarted consumer delivers from its new position.",
+         "SimCluster; small scope; bounds in the evidence notes", "5/C13"),
  "C19": ("model_checking", "explicit-state breadth-first search over the real Producer+KafkaClient with an alphabet of sends, cancels, ticks, replies and stop; reference model of the batching rules",
          "BFS (depth 5-6 quick, 7-8 thorough) over every sequence of sends of four sizes, cancels, timer firings, produce replies (ok/error), accepts and stop for 12 threshold configurations (count x bytes x seconds, each possibly disabled, plus unbatched); a reference model recomputed from scratch each step (queue, thresholds, in-flight) decides in which step a dispatch must and may happen, that cancelled-before-dispatch sends never reach the client, and the stop contract.",
          "warmed-up client, 1 broker/partition, <=4 sends and <=2 cancels per history; dispatch observed at the public KafkaClient.send_produce_request / load_metadata_for_topics seam", "5/C19"),
